@@ -21,6 +21,7 @@ type defaultVarMocker struct {
 	targetValue reflect.Value
 	mockValue   interface{}
 	originValue interface{}
+	captured    bool // captured 是否已经记录了变量的原始值
 	canceled    bool // canceled 是否被取消
 }
 
@@ -63,7 +64,14 @@ func (m *defaultVarMocker) Apply(callback interface{}) {
 
 // Cancel 取消 mock
 func (m *defaultVarMocker) Cancel() {
-	m.targetValue.Elem().Set(reflect.ValueOf(m.originValue))
+	if m.captured {
+		origin := reflect.ValueOf(m.originValue)
+		if !origin.IsValid() {
+			// 原始值为 nil 接口
+			origin = reflect.Zero(m.targetValue.Elem().Type())
+		}
+		m.targetValue.Elem().Set(origin)
+	}
 	m.canceled = true
 }
 
@@ -80,7 +88,11 @@ func (m *defaultVarMocker) Set(value interface{}) {
 }
 
 func (m *defaultVarMocker) doSet(value interface{}) {
-	m.originValue = m.targetValue.Elem().Interface()
+	if !m.captured {
+		// 只记录第一次 mock 之前的原始值
+		m.originValue = m.targetValue.Elem().Interface()
+		m.captured = true
+	}
 	d := reflect.ValueOf(value)
 	m.targetValue.Elem().Set(d)
 	m.mockValue = value
